@@ -44,6 +44,13 @@ CLAIMED = {
  'C06': dict(text="Lean theorems (21): the decimal, hexadecimal-float, digits(m,e,b) and rational(p,q) parsers return exactly the positional value of every spelling they accept and accept exactly the well-formed spellings (any digit count, exponent, separators); negated-zero fold; a literal is evaluated exactly and rounded once by fp.round; for the current front end the float-token path through Python's float is modelled faithfully (binary64 rounding + shortest repr) with proved counterexamples (known finding F5) and the full theorem literal_exact for the proposed repair. Tie: generated spellings evaluated by the real @fpy under REAL and narrow contexts vs the model, judged by an independent positional parser in exact rationals.",
              note=TB + "; F5 (decimal literals go through Python's float) is a recorded known finding: its repair changes the meaning of 1e300 relied on by an existing test.",
              tech="Lean 4 proof (parser = positional value) + spelling correspondence + rational Spec oracle", ref="5/C06"),
+
+ 'C03': dict(text="Lean theorems (18) about everything FPy adds around MPFR: given the MPFR contract (toward-zero truncation + inexact ternary at each precision, stated as a coherence predicate without real numbers) the round-to-odd wrapper with the context's round_params digits returns the correct rounding — fully formal for dyadic and rational true values and, via rto_determined, depending only on comparisons with dyadic breakpoints; the two-pass precision selection for fixed-point targets is sufficient; exactly representable results come back exact and unflagged; the constant table's shape (single primitive vs composition) and the mechanism by which composed constants mis-round (counterexample + soundness of the exponent-scaling repair). MPFR itself is validated per case by an independent enclosure oracle (directed evaluations at growing working precision until both ends round alike; constants by a pure-integer interval evaluator).",
+             note=TB + "; PARTIAL: numerical correctness of MPFR's transcendental kernels is outside any Lean model (sampled by the enclosure oracle); the passage from rationals to real numbers is the one informal step. Known finding F9 (seven composed constants).",
+             tech="Lean 4 proof of the wrapper logic + Ziv-style enclosure Spec oracle against the real ops", ref="5/C03"),
+ 'C12': dict(text="Lean theorems (28): a model of the FPCore core subset (fuel evaluator where '!' scopes the rounding context over exactly its sub-expression) and of the repaired compiler for blocks of assignments, nested/sequential with followed by statements, if/else, return: compile_sound (the compiled expression evaluates to what the FPy block returns, every operation under the context of its enclosing with and no other), with_scope (continuation outside the inner annotation, with a legacy counterexample), context-property table round trip. Tie: generated programs compiled by the real FPCoreCompiler, evaluated by titanfp (trusted reference) and re-read with Function.from_fpcore vs the interpreter; an evaluator-independent annotation-scope walk over the emitted core; the Lean FPCore evaluator vs titanfp; the compile model vs the real compiler.",
+             note=TB + "; PARTIAL: loops, if followed by statements (bundling), tuples/lists and the reader are covered by the harness only; titanfp is a trusted reference (its own deviations are counted, not judged). Known finding C12-looptarget.",
+             tech="Lean 4 proof (compile soundness for the loop-free subset) + differential runs against titanfp and the re-read function", ref="5/C12"),
 }
 NA_REASON = "check not built yet (work in progress; see DESIGN.md section 8 build order)"
 
